@@ -731,6 +731,12 @@ def check_C12(sc, v, tier, seed, replay):
                      "qosRules": [rnd.randrange(256) for _ in range(rnd.choice([0, 1, 255, 256, 4000] if i % 8 == 0 else [0, 1, 9, 31, 127, 128]))],
                      "qosFlows": [rnd.randrange(256) for _ in range(rnd.choice([3, 6, 60, 300]))],
                      "withAmbr": rnd.random() < 0.6,
+                     # values of the fixed part and of the leading optional IEs that look like later element identifiers (29 PDU address, 59 cause,
+                     # 8x / Cx half-octet ids): a walk keyed on octet values instead of the element structure trips over them
+                     "cause": [36, 0x29, 0x59, 0x80, 0xC0, rnd.randrange(256)][i % 6],
+                     "rq": [32, 0x29, 0x59, rnd.randrange(256)][i % 4],
+                     "sel": [0x11, 0x21, 0x31][i % 3],
+                     "ambr": [[6, 0, 1, 6, 0, 1], [0x29, 0x29, 0x29, 0x59, 0x59, 0x29], [rnd.randrange(256) for _ in range(6)]][i % 3],
                      "ambrDl": big(rnd.choice([0, 1, 255, 256, 65535, 65536, 1 << 32, 4000000000000, rnd.randrange(4000000000001)])),
                      "ambrUl": big(rnd.choice([0, 1, 1 << 16, 1 << 24, 1 << 40, 4000000000000]))})
     # dense sweeps through the transfer extractor alone: every aggregate bit rate 0..300 (DL and UL), every 256^k - 1, 256^k, 256^k + 1
